@@ -19,11 +19,15 @@ RULE = ('Hypothesis-driven docgen schemas (local declarations, the same local na
         'parents, qualified and unqualified forms) and two corpus pairs x every element of a valid instance x path forms '
         '{Clark, prefixed + namespaces map, with and without positional predicates}: schema.find vs the governing '
         'declaration; decode(path=p) vs the sub-tree of the full decoding; iter_errors(path=p) of damaged documents vs the '
-        'full-run errors located in the selected sub-trees; max_depth 0..depth. Non-trivial: the last step names an '
+        'full-run errors located in the selected sub-trees; max_depth 0..depth; target namespaces vary between cases under '
+        'one prefix; plus a 3-level library/aisle/shelf/book family with unique / key constraints declared on any subset of '
+        'the ancestors x 10 paths (with and without positional predicates): when no predicate splits the scope of a constraint '
+        'the partial run reports exactly the full-run errors of the selected part, identity errors included. Non-trivial: the last step names an '
         'element that also occurs elsewhere with another declaration, or the path selects >= 2 nodes; distinct = distinct '
         '(schema, document, path form, path)')
 ASSUMPTIONS = [
-    'identity-constraint / ID / IDREF errors are excluded from clause (b) and (c): a partial run cannot see the whole table',
+    'identity-constraint / ID / IDREF errors are excluded from clause (b) and (c) on docgen documents: a partial run cannot '
+    'see the whole table; the idc-part family asserts them only when the path keeps every constraint scope whole',
     'max_depth=k reading: an element at level L (root = 0) is checked iff L < k; children at level k are matched against '
     'the parent model but not validated themselves',
 ]
@@ -194,7 +198,7 @@ def prune(canon, k, level=0):
 
 
 def gen_case(rnd):
-    g = dg.Gen(rnd, idc=False, mixed_p=0.0)
+    g = dg.Gen(rnd, idc=False, mixed_p=0.0, tns=rnd.choice(['urn:t', 'urn:u', 'urn:v', '']))
     # reuse one local name with different types in different parents
     names = []
 
@@ -221,8 +225,65 @@ def gen_case(rnd):
     return g
 
 
+IDC_LEVEL = {'library': 0, 'aisle': 1, 'shelf': 2}
+IDC_PATHS = ['/library/aisle', '/library/aisle/shelf', '/library/aisle/shelf/book', '/library/aisle[2]/shelf/book',
+             '/library/aisle/shelf[2]/book', '/library/aisle[1]/shelf[1]', '/library/aisle[2]', '/library/aisle[2]/shelf',
+             '/library/aisle[3]/shelf[1]/book', '/library']
+
+
+def idc_xsd(places, kind):
+    sel = {'library': 'aisle/shelf/book', 'aisle': 'shelf/book', 'shelf': 'book'}
+
+    def idc(p):
+        if p not in places:
+            return ''
+        return '<xs:%s name="k_%s"><xs:selector xpath="%s"/><xs:field xpath="@id"/></xs:%s>' % (kind, p, sel[p], kind)
+    return ('<xs:schema xmlns:xs="http://www.w3.org/2001/XMLSchema"><xs:element name="library"><xs:complexType><xs:sequence>'
+            '<xs:element name="aisle" maxOccurs="unbounded"><xs:complexType><xs:sequence>'
+            '<xs:element name="shelf" maxOccurs="unbounded"><xs:complexType><xs:sequence>'
+            '<xs:element name="book" minOccurs="0" maxOccurs="unbounded"><xs:complexType><xs:attribute name="id" '
+            'type="xs:string"/><xs:attribute name="n" type="xs:int"/></xs:complexType></xs:element>'
+            '</xs:sequence></xs:complexType>%s</xs:element></xs:sequence></xs:complexType>%s</xs:element></xs:sequence>'
+            '</xs:complexType>%s</xs:element></xs:schema>' % (idc('shelf'), idc('aisle'), idc('library')))
+
+
+def judge_idc_part(places, kind, shape, st):
+    """Identity constraints declared on ancestors of the selected part: when the path keeps every
+    element in the scope of a constraint together (no positional predicate below the element that
+    declares it) the partial run reports exactly the full run's errors of the selected part.
+    shape: [[[(id, n), ...] per shelf] per aisle]."""
+    out = []
+    xsd = idc_xsd(places, kind)
+    s = xmlschema.XMLSchema10(xsd)
+    doc = '<library>' + ''.join('<aisle>' + ''.join('<shelf>' + ''.join(
+        '<book id="%s" n="%s"/>' % b for b in shelf) + '</shelf>' for shelf in aisle) + '</aisle>' for aisle in shape) + '</library>'
+    res = XMLResource(doc)
+    full = list(s.iter_errors(res))
+    for path in IDC_PATHS:
+        steps = path.strip('/').split('/')
+        if any('[' in x for p in places for x in steps[IDC_LEVEL[p] + 1:]):
+            st.cls('idc_scope_split_by_path_skipped')
+            continue
+        st.case()
+        sel = res.findall(path)
+        sub = set(x for e in sel for x in e.iter())
+        key = lambda e: (type(e).__name__, compare.norm_reason(e.reason), compare.elem_pos(e))
+        exp = sorted(key(e) for e in full if e.elem in sub)
+        got = sorted(key(e) for e in s.iter_errors(res, path=path))
+        if any('duplicated' in x[1] for x in exp) and len({x[2][:1] for x in exp if 'duplicated' in x[1]} | {(0,)}) > 1:
+            st.nt((xsd, doc, path))
+        st.cls('idc_part_with_errors' if exp else 'idc_part_clean')
+        if got != exp:
+            out.append({'kind': 'partial_errors_differ_idc', 'input': {'places': places, 'idc': kind, 'shape': shape, 'path': path,
+                                                                      'doc': doc},
+                        'expected': str(exp)[:300], 'observed': str(got)[:300], 'classes': [],
+                        'key': 'idcpart|%016x' % core.h64(xsd + doc + path)})
+            break
+    return out
+
+
 def shards(tier, seed):
-    return [('dg', k, tier, seed) for k in range(15)] + [('corpus',)]
+    return [('dg', k, tier, seed) for k in range(15)] + [('corpus',), ('idcpart', tier, seed)]
 
 
 def run_shard(desc):
@@ -236,6 +297,18 @@ def run_shard(desc):
             for r in judge(s, xsd, doc, st, 'corpus', s.target_namespace):
                 core.report(st, PROPERTY, r)
         st.sample({'corpus': ['vehicles', 'collection']})
+        return st
+    if desc[0] == 'idcpart':
+        _, tier, seed = desc
+        book = hst.tuples(hst.sampled_from('ABCDE'), hst.sampled_from(['1', '2', 'x', '3']))
+        strat = hst.tuples(hst.lists(hst.sampled_from(['library', 'aisle', 'shelf']), min_size=1, max_size=3, unique=True),
+                           hst.sampled_from(['unique', 'key']),
+                           hst.lists(hst.lists(hst.lists(book, max_size=3), min_size=1, max_size=3), min_size=1, max_size=3))
+
+        def body(v, st_):
+            st_.sample({'constraints on': v[0], 'kind': v[1], 'books per shelf per aisle': str(v[2])}, cap=2)
+            return judge_idc_part(sorted(v[0]), v[1], [[[tuple(b) for b in sh] for sh in a] for a in v[2]], st_)
+        core.hyp_drive(st, PROPERTY, strat, body, 1500 if tier == 'thorough' else 150, core.derive_seed(seed, 'C20idc'))
         return st
     _, k, tier, seed = desc
     n = 200 if tier == "thorough" else 35
@@ -262,6 +335,8 @@ def run_shard(desc):
 def replay(record):
     st = core.Stats()
     inp = record['input']
+    if record['kind'] == 'partial_errors_differ_idc':
+        return judge_idc_part(inp['places'], inp['idc'], [[[tuple(b) for b in sh] for sh in a] for a in inp['shape']], st)
     cls = xmlschema.XMLSchema11 if inp.get('ver') == '1.1' else xmlschema.XMLSchema10
     s = cls(inp['xsd'])
     recs = judge(s, inp['xsd'], inp['doc'], st, inp.get('label', ''), s.target_namespace, inp.get('faulty_doc'))
